@@ -57,4 +57,8 @@ VARIANTS = [
       "segment0 = selcopy.segments[(i + index) % len(selcopy.segments)]"),
     T("simple-eq-ne", "shape.SimpleShape.__eq__", "return self.jordans[0] == other.jordans[0]", "return not self.jordans[0] != other.jordans[0]"),
     T("cusp-guard-spelling", "curve.PlanarCurve.__or__", "if denomin == 0:", "if not denomin:"),
+    M("eq-exact-signed-length-precheck", "jordancurve.JordanCurve.__eq__", "assert isinstance(other, JordanCurve)",
+      "assert isinstance(other, JordanCurve)\n    if float(self) != float(other):\n        return False", ["R07.12"]),
+    M("eq-exact-length-through-locals", "jordancurve.JordanCurve.__eq__", "assert isinstance(other, JordanCurve)",
+      "assert isinstance(other, JordanCurve)\n    mine = abs(float(self))\n    theirs = abs(float(other))\n    if mine != theirs:\n        return False", ["R07.12"]),
 ]
